@@ -1293,6 +1293,8 @@ void genC04(Rng& r, KV& kv, const Opts& o) {
   kv.set("scen", r.range(0, 1)); // 0: submit after cancel returned; 1: queued behind gates then cancel
   if (n == 0 && kv.i("trigger") == 2)
     kv.set("trigger", 0L); // a zero-thread pool runs the parent task inline: it could never be parked
+  if (kv.i("trigger") == 2 && r.chance(1, 2))
+    kv.set("pthrow", 1L); // parent cascade after the parent was already cancelled by a throwing task
   kv.setu("mp", 800000);
   kv.setu("fp", 400000);
 }
@@ -1358,12 +1360,33 @@ void runC04T(Case& c, Make make) {
       if (n == 0) {
         // zero-thread pool ran T inline: it blocks on goOn forever -> not a usable shape
       }
+      bool pthrow = c.p.i("pthrow", 0) != 0 && n >= 2;
       if (n > 0) {
         childMade.wait();
+        if (pthrow) {
+          // the parent is first cancelled by a task that throws (which does not reach the children by itself); the
+          // explicit cancel() that follows must still cascade to the kOn child
+          dispenso::CompletionEvent threw;
+          P.schedule(
+              [&]() {
+                threw.notify();
+                throw Tagged{4242};
+              },
+              dispenso::ForceQueuingTag());
+          threw.wait();
+          for (int spin = 0; spin < 2000 && !P.canceled(); ++spin)
+            dsched_sleep_ns(2000);
+          c.cls("parent_cancelled_by_exception_before_cancel()");
+        }
         P.cancel();
         goOn.notify();
       }
-      P.wait();
+      try {
+        P.wait();
+      } catch (const Tagged&) {
+        if (!pthrow)
+          throw;
+      }
       if (n > 0) {
         if (!childCanceledSeen.load())
           c.fail("cascade-not-cancelled", "child set (ParentCascadeCancel::kOn) not cancelled after parent.cancel() returned");
